@@ -111,6 +111,17 @@ Emit == /\ fin # <<"running">> /\ ~emitted /\ emitted' = TRUE
         /\ UNCHANGED <<D, kind, stack, log, raised, exits, fin>>
 
 Next == CallDo \/ Continue \/ Return \/ Finish \/ Emit
+
+\* deeper chains: outcome vectors sampled by the harness (flowvectors.json: sequence of [depth, kinds in hook order B0..BD, act, AD..A0])
+Vectors == JsonDeserialize("flowvectors.json")
+HookAt(d, i) == IF i <= d + 1 THEN StepB(i - 1) ELSE IF i = d + 2 THEN <<"act">> ELSE StepA(2 * d + 3 - i)
+IndexOfHook(d, st) == CHOOSE i \in 1..(2 * d + 3) : HookAt(d, i) = st
+InitFile == \E v \in DOMAIN Vectors :
+              /\ D = Vectors[v].depth
+              /\ kind = [st \in Hooks(Vectors[v].depth) |-> Vectors[v].kinds[IndexOfHook(Vectors[v].depth, st)]]
+              /\ stack = <<[st |-> <<"in">>, p |-> Nil, pc |-> "do"]>>
+              /\ log = <<>> /\ raised = <<>> /\ exits = <<>> /\ fin = <<"running">> /\ emitted = FALSE
+SpecFile == InitFile /\ [][Next]_vars /\ WF_vars(Next)
 Spec == Init /\ [][Next]_vars /\ WF_vars(Next)
 
 \* ---------------------------------------------------------------- the property, stated directly (C05)
